@@ -463,3 +463,12 @@ Definition dec_value_elem (E : ext) (value_elem : option nxml) : res (option uav
   | None => Ok None
   | Some v => match nchildren v with [] => Ok None | c :: _ => rmap Some (decode E c) end
   end.
+
+(* the fragment as the parser sees it: optionally wrapped in <Value xmlns=Types> (include_xmlns = False) *)
+Definition decode_text (E : ext) (wrapped : bool) (s : str) : res uav :=
+  match xparse s with
+  | None => Err EXml
+  | Some t =>
+      let n := resolve (if wrapped then TYPES_NS else []) [] t in
+      decode E n
+  end.
